@@ -244,6 +244,37 @@ def l5_widened_flags_read_through_their_line(tree, rep):
     rep.floor('widened yes/no declarations', len(wid), 4)
 
 
+def l6_iterated_sequences_are_not_edited(tree, rep):
+    """`for x in items: ... items.remove(x)` skips the element that follows every removed one (the list shifts under the
+    iterator), so which elements are looked at depends on their order: with the copies of a form in the list, renumbering
+    the copies changes the result.  Rule: inside a `for` over a name, that name is not edited in place (remove, pop,
+    insert, append, extend, del, slice assignment)."""
+    import ast as _ast
+    an = get_analysis(tree)
+    n = 0
+    rels = [rel for y in an.cat.years for rel in tree.form_modules(y)] + ['habutax/solver.py', 'habutax/form.py', 'habutax/inputs.py', 'habutax/values.py', 'habutax/pdf_filler.py', 'habutax/__init__.py']
+    for rel in rels:
+        mod = tree.module(rel)
+        for loop in [x for x in _ast.walk(mod) if isinstance(x, _ast.For) and isinstance(x.iter, _ast.Name)]:
+            n += 1
+            name = loop.iter.id
+            bad = None
+            for x in _ast.walk(loop):
+                if isinstance(x, _ast.Call) and isinstance(x.func, _ast.Attribute) and isinstance(x.func.value, _ast.Name) and x.func.value.id == name \
+                        and x.func.attr in ('remove', 'pop', 'insert', 'append', 'extend', 'clear', 'sort', 'reverse'):
+                    bad = x
+                if isinstance(x, _ast.Delete) and any(isinstance(t_, _ast.Subscript) and isinstance(t_.value, _ast.Name) and t_.value.id == name for t_ in x.targets):
+                    bad = x
+                if isinstance(x, _ast.Assign) and any(isinstance(t_, _ast.Subscript) and isinstance(t_.slice, _ast.Slice) and isinstance(t_.value, _ast.Name) and t_.value.id == name for t_ in x.targets):
+                    bad = x
+            if bad is not None:
+                rep.ob('L6', f'{rel}:{loop.lineno}@{name}', False,
+                       f'{rel}: `{unparse(bad, 50)}` edits `{name}` inside the loop that iterates over it: the element after each removed (or before each inserted) one is skipped or seen twice, '
+                       'so the outcome depends on the order of the elements - for numbered copies of a form, on their numbering', f'{rel}:{bad.lineno}')
+    rep.ob('L6', 'no-sequence-is-edited-while-it-is-iterated', True)
+    rep.floor('for loops over a named sequence checked', n, 10)
+
+
 def enclosing_scope(node):
     p = getattr(node, 'parent', None)
     while p is not None and not isinstance(p, (ast.FunctionDef, ast.Lambda, ast.ClassDef)):
